@@ -1,10 +1,10 @@
 CONSTANTS
+  TREEONLY = TRUE
   MUT = 1
   NK = 8
   Keys <- MCKeys
   HashOf <- MCHash
   InitLists <- MCInit
 SPECIFICATION Spec
-VIEW TreeView
 INVARIANTS RBInvariants LookupsOK TooSmallOnlyWhenSmall
 CHECK_DEADLOCK FALSE
